@@ -213,7 +213,7 @@ type profile struct {
 
 var allActs = []string{"equivocate", "badparent", "staleqc", "inflate", "dupsigner", "relabel", "subquorum",
 	"wrongblock", "genesisview", "futuretimeout", "badtimeoutsig", "dupvote", "multivote", "zerovote", "unknownvote",
-	"strayvote", "replay", "liefetch", "silent", "staleTC", "swapids", "nosig", "sameview", "aggreplay", "forgevote", "forgetc", "forgecontrib", "aggtwin", "aggattest", "aggforge", "roguekey", "payloadeq", "qceq", "aggswap", "aggstale", "spoofproposer", "dupbatch", "zeroview", "anoncontrib", "lockless", "noqctimeout", "genesissig"}
+	"strayvote", "replay", "liefetch", "silent", "staleTC", "swapids", "nosig", "sameview", "aggreplay", "forgevote", "forgetc", "forgecontrib", "aggtwin", "aggattest", "aggforge", "roguekey", "payloadeq", "qceq", "aggswap", "aggstale", "spoofproposer", "dupbatch", "zeroview", "anoncontrib", "lockless", "noqctimeout", "genesissig", "stalechain", "stalechain", "stalechain"}
 
 func profileFor(prop string) profile {
 	pr := profile{byz: 0.6, acts: allActs, faults: 6, leaders: []string{"round-robin", "round-robin", "round-robin", "fixed", "carousel", "reputation", "scripted"}}
@@ -457,6 +457,14 @@ func GenPlan(prop string, seed uint64) *Plan {
 			p.Byz = append(p.Byz, b)
 			budget--
 		}
+	}
+	if (prop == "C06" || prop == "C10" || prop == "C12" || prop == "C13") && len(p.Byz) > 0 && mix(p.Inner, 0x6e6f6261)%2 == 0 {
+		// some of the blocks the Byzantine replicas make up carry no command batch at all, and the Byzantine replicas
+		// serve the blocks they made up when asked for them (so an unverifiable certificate can plant one in a store)
+		if p.Knobs == nil {
+			p.Knobs = map[string]int{}
+		}
+		p.Knobs["nobatch"] = 1
 	}
 	if prop == "C02" && len(p.Byz) > 0 && (p.Ruleset == "fasthotstuff" || p.Knobs["aggqc"] == 1) && p.Crypto == "ecdsa" && mix(p.Inner, 0x65637265)%3 == 0 {
 		// ECDSA verifies the entries of a multi-signature concurrently: aggregates replayed with altered views, entries
